@@ -676,3 +676,48 @@ CASES += [
  dict(id='cli-evaluate-channel-first-line', kind='fire', file=M, old='Box::new(BufReader::new(inline_str.as_bytes())) as Box<dyn BufRead>',
       new='Box::new(BufReader::new(inline_str.lines().next().unwrap_or("").as_bytes())) as Box<dyn BufRead>', expect={'C10': 'input channel'}, control=False),
 ]
+
+# sixth round of behaviour-preserving patches (bn21 BDD operations, bn22 parser and evaluator, bn23 n_queens / sudoku loops, bn24 sets,
+# filter spellings, plotting and the printers): all 32 silent after the generalisations of DESIGN.md 15.4, each with must-fire twins below
+_BN6 = {21: ['C01', 'C02', 'C03', 'C04', 'C05', 'C06', 'C07', 'C09', 'C12', 'C13', 'C19', 'C20'], 22: ['C01', 'C03', 'C04', 'C05', 'C06', 'C08', 'C09', 'C10', 'C11', 'C12'],
+        23: ['C15', 'C17'], 24: ['C07', 'C09', 'C10', 'C11', 'C12', 'C19', 'C20']}
+_BN6_FILE = {21: B, 22: P, 23: Q, 24: M}
+for _k, _checks in _BN6.items():
+    for _n in range(1, 9):
+        CASES.append(dict(id='bn%d-%02d' % (_k, _n), kind='silent', file=_BN6_FILE[_k], patch='bn%d-%02d.diff' % (_k, _n), checks=_checks, control=False))
+
+CASES += [
+ dict(id='fp-while-applies-to-start', kind='fire', file=B, patch='bn21-04.diff', old='            s = snew;\n            snew = t(Rc::clone(&s));', new='            s = snew;\n            snew = t(Rc::clone(&a));', expect={'C06': 'FP'}, control=False),
+ dict(id='count-fnptr-wrong-bound', kind='fire', file=B, patch='bn21-08.diff', old='self.mk_const(cmp(n))', new='self.mk_const(cmp(n + 1))', expect={'C05': 'violation'}, control=False),
+ dict(id='queens-stepped-range-short', kind='fire', file=Q, patch='bn23-01.diff', old='(column..n * n).step_by(n)', new='(column..n * n - n).step_by(n)', expect={'C15': 'N'}, control=False),
+ dict(id='queens-shifted-range-short', kind='fire', file=Q, patch='bn23-01.diff', old='first_cell..(first_cell + n)', new='first_cell..(first_cell + n - 1)', expect={'C15': 'N'}, control=False),
+ dict(id='queens-collected-list-skips-first', kind='fire', file=Q, patch='bn23-03.diff', old='let cells: String = (0..(n - i))\n            .map(|j| format!("v_{},", i + (j * (n + 1))))', new='let cells: String = (1..(n - i))\n            .map(|j| format!("v_{},", i + (j * (n + 1))))', expect={'C15': 'N'}, control=False),
+ dict(id='queens-collected-list-wrong-relation', kind='fire', file=Q, patch='bn23-03.diff', old='writeln!(writer, "[{}] <= 1 &", cells)?;', new='writeln!(writer, "[{}] = 1 &", cells)?;', expect={'C15': 'N'}, control=False),
+ dict(id='queens-const-text-wrong-relation', kind='fire', file=Q, patch='bn23-04.diff', old='const AT_MOST_ONE: &str = "] <= 1 &";', new='const AT_MOST_ONE: &str = "] = 1 &";', expect={'C15': 'N'}, control=False),
+ dict(id='sudoku-hoisted-column-short', kind='fire', file=U, patch='bn23-08.diff', old='let column: Vec<usize> = (0..square)', new='let column: Vec<usize> = (1..square)', expect={'C17': 'U'}, control=False),
+ dict(id='sudoku-flatmap-wrong-stride', kind='fire', file=U, patch='bn23-06.diff', old='down * square + right', new='down * root + right', expect={'C17': 'U'}, control=False),
+ dict(id='sudoku-flatmap-short-inner', kind='fire', file=U, patch='bn23-06.diff', old='.flat_map(|down| (0..root)', new='.flat_map(|down| (1..root)', expect={'C17': 'violation'}, control=False),
+ dict(id='sudoku-hint-to-digit-hex', kind='fire', file=U, patch='bn23-05.diff', old='ch.to_digit(10)', new='ch.to_digit(16)', expect={'C17': 'hints'}, control=False),
+ dict(id='sudoku-hint-nth-off-by-one', kind='fire', file=U, patch='bn23-05.diff', old='.nth(i)', new='.nth(i + 1)', expect={'C17': 'hints'}, control=False),
+ dict(id='sudoku-manual-join-wrong-guard', kind='fire', file=U, patch='bn23-07.diff', old='if j > 1 {', new='if j > 2 {', expect={'C17': 'violation'}, control=False),
+ dict(id='sudoku-manual-join-short', kind='fire', file=U, patch='bn23-07.diff', old='for j in 1..=square {', new='for j in 1..square {', expect={'C17': 'U'}, control=False),
+ dict(id='table-split-leaf-arms-wrong-filter', kind='fire', file=M, patch='bn24-08.diff', old='leaf @ BDD::True if !filter.is_false()', new='leaf @ BDD::True if !filter.is_true()', expect={'C10': 'X2'}, control=False),
+ dict(id='table-widths-len-plus-one', kind='fire', file=M, patch='bn24-05.diff', old='indent = widths[labels.len()]', new='indent = widths[labels.len() + 1]', expect={'C12': 'violation'}, control=False),
+ dict(id='set-contains-into-inner-or', kind='fire', file=S, patch='bn24-01.diff', old='self.env.and(current, Rc::clone(&element)) == element', new='self.env.or(current, Rc::clone(&element)) == element', expect={'C19': 'contains'}, control=False),
+ dict(id='parser-generic-list-wrong-closing', kind='fire', file=P, patch='bn22-07.diff', old='Self::parse_comma_separated(tokens, SymbolicBDDToken::Hash, Self::parse_variable_name)', new='Self::parse_comma_separated(tokens, SymbolicBDDToken::Comma, Self::parse_variable_name)', expect={'C08': 'violation'}, control=False),
+ dict(id='parser-generic-list-wrong-item', kind='fire', file=P, patch='bn22-07.diff', old='            SymbolicBDDToken::CloseSquare,\n            Self::parse_sub_formula,', new='            SymbolicBDDToken::CloseSquare,\n            Self::parse_simple_sub_formula,', expect={'C08': 'violation'}, control=False),
+ dict(id='parser-expect-inverted', kind='fire', file=P, patch='bn22-03.diff', old='if found == Some(&token) {', new='if found != Some(&token) {', expect={'C08': 'helper'}, control=False),
+ dict(id='parser-check-any-token', kind='fire', file=P, patch='bn22-03.diff', old='if upcoming == Some(&token) {', new='if upcoming.is_some() {', expect={'C08': 'helper'}, control=False),
+ dict(id='parser-operator-predicate-misses-iff', kind='fire', file=P, patch='bn22-01.diff', old='                | Self::ImpliesInv\n                | Self::Iff\n', new='                | Self::ImpliesInv\n', expect={'C08': 'violation', 'C03': 'look-ahead'}, control=False),
+ dict(id='parser-inlined-not-takes-sub', kind='fire', file=P, patch='bn22-02.diff', old='let operand = Self::parse_simple_sub_formula(tokens)?;', new='let operand = Self::parse_sub_formula(tokens)?;', expect={'C08': 'violation'}, control=False),
+ # new rules found through the round-6 seeds, each with a hand-written instance
+ dict(id='cli-true-vars-line-conditional', kind='fire', file=M, old='            println!("{};", vars_str.join(", "));', new='            if !vars_str.is_empty() {\n                println!("{};", vars_str.join(", "));\n            }', expect={'C10': 'line per satisfying row'}, control=False),
+ dict(id='cli-true-vars-shows-false', kind='fire', file=M, old='                } else if *v == TruthTableEntry::Any {', new='                } else if *v == TruthTableEntry::False {', expect={'C10': 'names on the line'}, control=False),
+ dict(id='countable-usize-saturating-bound', kind='fire', file=P, patch='../../seeded/C10-r6b/patch.diff', expect={'C05': 'LessThan', 'C10': 'LessThan'}, control=False),
+ dict(id='free-vars-extra-disjunct', kind='fire', file=P, old='result.raw2free.push(if result.var_is_free(&result.bdd, v) {', new='result.raw2free.push(if n > 64 || result.var_is_free(&result.bdd, v) {', expect={'C09': 'free_vars', 'C12': 'free_vars'}, control=False),
+ dict(id='parsetree-fixedpoint-labels-swapped', kind='fire', file=PIO, old='dot::LabelText::label(format!("GFP {}", v))', new='dot::LabelText::label(format!("LFP  {}", v))', expect={'C14': 'X10'}, control=False),
+ dict(id='graph-output-opened-first', kind='fire', file=G, patch='../../seeded/C18-r6c/patch.diff', expect={'C18': 'output opened before'}, control=False),
+ dict(id='dot-node-id-shows-variable', kind='fire', file=IO, patch='../../seeded/C12-r6a/patch.diff', expect={'C12': 'panic'}, control=False),
+ dict(id='replace-var-skips-definitions', kind='fire', file=P, patch='../../seeded/C06-r6c/patch.diff', expect={'C06': 'XR'}, control=False),
+ dict(id='eval-caches-definitions', kind='fire', file=P, patch='../../seeded/C13-r6c/patch.diff', expect={'C13': 'XR'}, control=False),
+]
